@@ -4,7 +4,7 @@
 From Coq Require Import List NArith ZArith Bool.
 From Coq Require Extraction.
 From Coq Require Import ExtrOcamlBasic.
-From HV Require Import Model.Big Model.Rat Model.NumText Model.Chars Model.Parse Spec.Grammar.
+From HV Require Import Model.Big Model.Rat Model.NumText Model.Chars Model.Parse Spec.Grammar Model.Exec Spec.Lang Model.Opt.
 Extraction "model.ml"
   Big.from_vec Big.bminus Big.bneg Big.badd Big.bsub Big.bmul Big.bdiv Big.brem Big.bgcd Big.beq Big.bcmp
   Big.bnew Big.new_pre_fix Big.is_zero Big.to_int Big.wfb Big.bval
@@ -13,4 +13,7 @@ Extraction "model.ml"
   NumText.to_string_base NumText.from_string_base NumText.big_display NumText.num_display
   NumText.num_from_string
   Parse.parse Parse.parse_pre_fix Parse.area_debug Parse.area_display
-  Grammar.decompose Grammar.valid Grammar.flatten Grammar.abstract.
+  Grammar.decompose Grammar.valid Grammar.flatten Grammar.abstract
+  Exec.xcode_of_ucode Exec.state0 Exec.execute_one Exec.run_pre Exec.run_inc Exec.final_state
+  Lang.sstep Lang.srun Lang.lstate0 Lang.scmd_of_ucode Lang.value_text
+  Opt.optimize_prog Opt.run_level Opt.all_fixed Opt.pinned.
